@@ -96,6 +96,48 @@ func runC05(c *Ctx) {
 		}
 	}
 
+	// stratum: structurally equal but distinct containers ("twins") stored, replaced and compared by identity
+	for i := 0; i < c.N(60, 600); i++ {
+		m.Case("twins")
+		t := r.Container(&TreeOpts{MaxDepth: 2, MaxWidth: 3}, "[{"[r.Intn(2)])
+		mk := func() string {
+			if t.K == '[' {
+				return m.NewListFrom(gvOfTree(t))
+			}
+			return m.NewObjectFrom(gvOfTree(t))
+		}
+		a, b := mk(), mk()
+		outer := m.NewList(gvStr("x"), m.RefGV(a), gvInt(1))
+		m.Replace(outer, 1, m.RefGV(b))
+		m.Get(outer, 1)
+		m.IndexOf(outer, m.RefGV(b))
+		m.IndexOf(outer, m.RefGV(a))
+		m.Contains(outer, m.RefGV(a))
+		m.Insert(outer, 1, m.RefGV(a))
+		m.Add(outer, m.RefGV(a), m.RefGV(b))
+		m.IndexOf(outer, m.RefGV(b))
+		m.Delete(outer, 1)
+		m.SetTF(outer, "#0", m.RefGV(a))
+		m.SetTF(outer, "#0", m.RefGV(b))
+		m.Get(outer, 0)
+		// mutate one twin, the other must not follow
+		if t.K == '[' {
+			m.Add(b, gvInt(7))
+			m.Concat(a, m.NewList())
+			e := m.NewList()
+			ce := m.Concat(a, e)
+			m.Add(ce, gvInt(1))
+			m.Replace(a, 0, gvInt(0))
+			m.Reverse(ce)
+		} else {
+			m.OSet(b, gvStr("twin"), gvInt(7))
+		}
+		cp := m.NewListOf(m.RefGV(a), 3)
+		m.Replace(cp, 1, m.RefGV(b))
+		m.Equals(cp, m.NewListOf(m.RefGV(b), 3))
+		c.St.Eval("twins:"+t.Token(), true)
+	}
+
 	// stratum 3: structured random programs
 	nprog := c.N(300, 4000)
 	for i := 0; i < nprog; i++ {
